@@ -83,6 +83,10 @@ pub enum Step {
     SleepMs(u64),
     /// record the virtual instant at which reply k has been completely written
     Mark(usize),
+    /// behave like a conforming RFC 6242 server after the hello exchange: if both hellos advertise
+    /// :base:1.1 expect and send chunked framing, else end-of-message framing; a request in the
+    /// other framing makes the server terminate the session
+    Rfc6242Server { server_has_11: bool },
     Close(CloseKind),
 }
 
@@ -97,6 +101,8 @@ pub struct Scenario {
     pub label: String,
     /// wrong password / untrusted setup (C20)
     pub bad_credentials: bool,
+    /// the SSH password the server accepts and (unless bad_credentials) the client presents
+    pub password: String,
 }
 
 #[derive(Clone, Debug, PartialEq, Eq)]
@@ -136,6 +142,8 @@ pub fn reply_msg(id: usize, len: usize) -> Vec<u8> {
 struct PeerShared {
     inbuf: Vec<u8>,
     messages: Vec<String>,
+    /// every byte received, unframed
+    raw: Vec<u8>,
 }
 
 type Ps = Arc<(Mutex<PeerShared>, Notify)>;
@@ -145,6 +153,7 @@ fn feed(ps: &Ps, data: &[u8]) {
         eprintln!("feed {} bytes: {:?}", data.len(), String::from_utf8_lossy(&data[..data.len().min(80)]));
     }
     let mut g = ps.0.lock().unwrap();
+    g.raw.extend_from_slice(data);
     g.inbuf.extend_from_slice(data);
     while let Some(p) = crate::ssim::find(&g.inbuf, MARKER) {
         let m: Vec<u8> = g.inbuf.drain(..p + MARKER.len()).collect();
@@ -251,6 +260,7 @@ struct SshShared {
 
 #[derive(Clone)]
 struct SshH {
+    password: String,
     ps: Ps,
     sh: Arc<Mutex<SshShared>>,
     keep: Arc<Mutex<Vec<russh::Channel<russh::server::Msg>>>>,
@@ -260,7 +270,7 @@ struct SshH {
 impl russh::server::Handler for SshH {
     type Error = anyhow::Error;
     async fn auth_password(self, _user: &str, password: &str) -> Result<(Self, russh::server::Auth), Self::Error> {
-        Ok(if password == SSH_PASSWORD { (self, russh::server::Auth::Accept) } else { (self, russh::server::Auth::Reject { proceed_with_methods: None }) })
+        Ok(if password == self.password { (self, russh::server::Auth::Accept) } else { (self, russh::server::Auth::Reject { proceed_with_methods: None }) })
     }
     async fn channel_open_session(self, channel: russh::Channel<russh::server::Msg>, session: russh::server::Session) -> Result<(Self, bool, russh::server::Session), Self::Error> {
         self.sh.lock().unwrap().chan = Some((channel.id(), session.handle()));
@@ -334,6 +344,70 @@ async fn play(steps: Vec<Step>, mut io: PeerIo, ps: Ps, out: Arc<Mutex<Outcome>>
                 out.lock().unwrap().marks.push((k, t));
             }
             Step::WaitClientMessages(n) => wait_messages(&ps, n).await?,
+            Step::Rfc6242Server { server_has_11 } => {
+                wait_messages(&ps, 1).await?;
+                let client_has_11 = ps.0.lock().unwrap().messages[0].contains("urn:ietf:params:netconf:base:1.1");
+                let chunked = server_has_11 && client_has_11;
+                // wait for one request in either framing
+                let hello_len = {
+                    let g = ps.0.lock().unwrap();
+                    crate::ssim::find(&g.raw, MARKER).map_or(0, |p| p + MARKER.len())
+                };
+                let request: (bool, String) = loop {
+                    let notified = ps.1.notified();
+                    tokio::pin!(notified);
+                    notified.as_mut().enable();
+                    {
+                        let g = ps.0.lock().unwrap();
+                        let tail = &g.raw[hello_len.min(g.raw.len())..];
+                        if tail.starts_with(b"\n#") {
+                            if let Some(e) = crate::ssim::find(tail, b"\n##\n") {
+                                break (true, String::from_utf8_lossy(&tail[..e]).into_owned());
+                            }
+                        } else if g.messages.len() >= 2 {
+                            break (false, g.messages[1].clone());
+                        }
+                    }
+                    notified.await;
+                };
+                let id = request.1.split("message-id=\"").nth(1).and_then(|s| s.split('"').next()).unwrap_or("0").to_string();
+                let body = format!("<rpc-reply message-id=\"{id}\" xmlns=\"{NS}\"><data><t xmlns=\"urn:x\">TAG-1-framing</t></data></rpc-reply>");
+                out.lock().unwrap().client_messages.push(format!("<server: both advertise 1.1 = {chunked}; request arrived with {} framing>", if request.0 { "chunked" } else { "end-of-message" }));
+                let reply: Option<Vec<u8>> = match (chunked, request.0) {
+                    (true, true) => Some(format!("\n#{}\n{body}\n##\n", body.len()).into_bytes()),
+                    (false, false) => Some(format!("{body}]]>]]>").into_bytes()),
+                    _ => None,
+                };
+                match reply {
+                    Some(data) => match &mut io {
+                        PeerIo::Tls(w, _) => {
+                            w.write_all(&data).await.map_err(|e| format!("peer write: {e}"))?;
+                            w.flush().await.map_err(|e| format!("peer flush: {e}"))?;
+                        }
+                        PeerIo::Ssh(chan, handle, _) => {
+                            handle.data(*chan, russh::CryptoVec::from_slice(&data)).await.map_err(|_| "peer ssh data failed".to_string())?;
+                        }
+                        PeerIo::Local(Some(w), _) => {
+                            w.write_all(&data).await.map_err(|e| format!("peer write: {e}"))?;
+                        }
+                        PeerIo::Local(None, _) => {}
+                    },
+                    None => {
+                        // RFC 6242 section 4.2: a framing error terminates the session
+                        match &mut io {
+                            PeerIo::Tls(w, _) => {
+                                let _ = w.shutdown().await;
+                            }
+                            PeerIo::Ssh(chan, handle, _) => {
+                                let _ = handle.eof(*chan).await;
+                                let _ = handle.close(*chan).await;
+                            }
+                            PeerIo::Local(w, _) => *w = None,
+                        }
+                    }
+                }
+                tokio::time::sleep(Duration::from_millis(1)).await;
+            }
             Step::SleepMs(ms) => tokio::time::sleep(Duration::from_millis(ms)).await,
             Step::Chunk(data) => {
                 match &mut io {
@@ -491,7 +565,7 @@ pub fn run_scenario(ctx: &mut Ctx, sc: &Scenario) -> Outcome {
     let seed = ctx.pick(1 << 30) as u64;
     let rt = crate::asim::runtime(seed);
     let out: Arc<Mutex<Outcome>> = Arc::default();
-    let ps: Ps = Arc::new((Mutex::new(PeerShared { inbuf: Vec::new(), messages: Vec::new() }), Notify::new()));
+    let ps: Ps = Arc::new((Mutex::new(PeerShared { inbuf: Vec::new(), messages: Vec::new(), raw: Vec::new() }), Notify::new()));
     let sc2 = sc.clone();
     let (out2, ps2) = (out.clone(), ps.clone());
     rt.block_on(async move {
@@ -575,7 +649,7 @@ pub fn run_scenario(ctx: &mut Ctx, sc: &Scenario) -> Outcome {
                 cfg.auth_rejection_time = Duration::from_millis(10);
                 cfg.auth_rejection_time_initial = Some(Duration::from_millis(0));
                 let cfg = Arc::new(cfg);
-                let h = SshH { ps: ps2.clone(), sh: Arc::default(), keep: Arc::default() };
+                let h = SshH { password: sc.password.clone(), ps: ps2.clone(), sh: Arc::default(), keep: Arc::default() };
                 let h2 = h.clone();
                 let ps3 = ps2.clone();
                 let out3 = out2.clone();
@@ -605,7 +679,8 @@ pub fn run_scenario(ctx: &mut Ctx, sc: &Scenario) -> Outcome {
                     pump.abort();
                     r
                 });
-                let password = if sc.bad_credentials { "wrong password" } else { SSH_PASSWORD };
+                let wrong = format!("wrong-{}", sc.password);
+                let password: &str = if sc.bad_credentials { &wrong } else { &sc.password };
                 let session = tokio::time::timeout(WAIT, Session::ssh(addr, "operator".to_string(), password.parse().expect("infallible"))).await;
                 match session {
                     Ok(Err(e)) => out2.lock().unwrap().establish = Some(Res::Err(format!("{e:?}").chars().take(200).collect())),
